@@ -247,7 +247,7 @@ Qed.
 
 Theorem sem_add s a : exec_add s a (sem s [] (add_sub a)) = spec_add s a.
 Proof.
-  unfold exec_add, spec_add. destruct (add_builders a _); [apply annotate_all_steps|reflexivity].
+  unfold exec_add, spec_add. destruct (add_builders s a _); [apply annotate_all_steps|reflexivity].
 Qed.
 
 Lemma rm_missing s a : get_ann s a = None -> rm_annotation s (ByHandle a) = (s, OErr).
@@ -257,10 +257,8 @@ Qed.
 
 Theorem sem_delete s x sub : exec_delete s x sub (sem s [] sub) = spec_delete s x sub.
 Proof.
-  unfold exec_delete, spec_delete, delete_handles.
-  generalize (sem s [] sub) as rows. intros rows. revert s.
-  induction rows as [|row rows IH]; intros s; cbn [fold_left flat_map]; [reflexivity|].
-  destruct (row_item (names_of sub) row x) as [[a| | | | |]|]; cbn [app fold_left]; try apply IH.
+  unfold exec_delete, spec_delete. destruct (delete_handles x sub (sem s [] sub)) as [hs|]; [|reflexivity].
+  f_equal. revert s. induction hs as [|a hs IH]; intros s; cbn [fold_left]; [reflexivity|].
   cbn [step]. destruct (get_ann s a) eqn:E; [apply IH|].
   rewrite (rm_missing _ _ E). cbn [fst]. apply IH.
 Qed.
